@@ -719,17 +719,33 @@ class _Sim:
             old_bufs = {s[2] for s in srcs}
             if any(self.M[b].dtype != self.M[bid].dtype for b in old_bufs):
                 self.probe("upcast_on_relink")
-            dropped = 0
+            # Only what the documentation declares unusable is dropped: a collection that lost a member to this one
+            # ("a field cannot be linked to two collections") and component-view objects derived earlier (their parent
+            # may have moved).  Everything else that lives on the old buffers - the vector a relinked component view
+            # belongs to, the other members of the old collection, raw arrays - stays in the model: the new collection
+            # gathers the data in an array of its own, so it must not alias any of them (seeded change C15-s3).
+            dropped = kept = 0
             for h in list(self.H):
                 k = next((k for k, ob in enumerate(objs) if h.kind != "A" and h.obj is ob), None)
                 if k is not None:
                     h.buf, h.c0, h.c1 = bid, members[k][1], members[k][2]
                     h.compview = False
                 elif h.buf in old_bufs:
-                    self.forget(h)
-                    dropped += 1
+                    if h.kind == "C":
+                        # keep watching the abandoned collection's array as a raw array
+                        raw = _H("A", h.obj._data_full, h.buf, h.c0, h.c1, h.dshape, full=True)
+                        self.forget(h)
+                        self.add_handle(raw)
+                        dropped += 1
+                    elif h.compview:
+                        self.forget(h)
+                        dropped += 1
+                    else:
+                        kept += 1
             if dropped:
                 self.probe("relink_dropped_handle", dropped)
+            if kept:
+                self.probe("relink_kept_handle_on_old_buffer", kept)
         self.add_handle(hC)
         self.sweep_buffers()
         return f"fc {hC.desc()} of {[s[1] for s in srcs]} copy={copy_sem}"
